@@ -52,6 +52,14 @@ type FuncContract struct {
 	Results  []string
 	Consumes []string
 	GhostDefs []Clause
+	CallPres  []CallPre
+}
+
+// CallPre: an assertion checked immediately before calls whose callee name contains Callee;
+// the call's arguments are visible as arg0, arg1, ... (receiver first).
+type CallPre struct {
+	Callee string
+	C      Clause
 }
 
 type Hint struct {
@@ -88,6 +96,18 @@ type Lemma struct {
 	Line    int
 }
 
+// GlobalInv: a predicate over package-level variables that are written only by init functions;
+// proved at the return of the named init function, assumed at the entry of every other function
+// of the package.
+type GlobalInv struct {
+	Pkg   string
+	Name  string
+	Init  string
+	Props []string
+	E     Expr
+	Src   string
+}
+
 type GhostVar struct {
 	Pkg  string
 	Name string
@@ -101,6 +121,7 @@ type Contracts struct {
 	Ghosts map[string]*GhostVar
 	Order  []string
 	Tables []*TableCheck
+	GlobalInvs []*GlobalInv
 }
 
 // TableCheck: ground obligations over literal tables of the repository.
@@ -161,28 +182,20 @@ func (cs *Contracts) LoadContractFile(path, pkg string) error {
 		case "func", "extern":
 			name := rest
 			var params, results []string
-			if i := strings.Index(rest, "("); word == "extern" && i > 0 && !strings.HasPrefix(rest, "(") {
-				// extern pkg.Fn(a, b) (r0, r1)
-				name = strings.TrimSpace(rest[:i])
-				j := strings.Index(rest, ")")
-				params = splitList(rest[i+1 : j])
-				tail := strings.TrimSpace(rest[j+1:])
-				if strings.HasPrefix(tail, "(") {
-					results = splitList(strings.Trim(tail, "()"))
-				}
-			} else if word == "extern" && strings.HasPrefix(rest, "(") {
-				// extern (*T).M(a, b) (r)
-				j := strings.Index(rest, ")")
-				k := strings.Index(rest[j+1:], "(")
-				if k >= 0 {
-					name = strings.TrimSpace(rest[:j+1+k])
-					r2 := rest[j+1+k:]
-					j2 := strings.Index(r2, ")")
-					params = splitList(r2[1:j2])
-					tail := strings.TrimSpace(r2[j2+1:])
-					if strings.HasPrefix(tail, "(") {
-						results = splitList(strings.Trim(tail, "()"))
-					}
+			if word == "extern" && strings.HasSuffix(rest, ")") {
+				// extern NAME(params) [(results)] ; NAME may itself contain "(*T)"
+				lastOpen := strings.LastIndex(rest, "(")
+				g2 := rest[lastOpen:]
+				head := strings.TrimRight(rest[:lastOpen], " ")
+				if strings.HasSuffix(head, ")") && len(head) < len(rest[:lastOpen]) {
+					// g2 are the results, the group before it the parameters
+					results = splitList(strings.Trim(g2, "()"))
+					po := strings.LastIndex(head, "(")
+					params = splitList(strings.Trim(head[po:], "()"))
+					name = strings.TrimSpace(head[:po])
+				} else {
+					params = splitList(strings.Trim(g2, "()"))
+					name = strings.TrimSpace(head)
 				}
 			}
 			cur = &FuncContract{Pkg: pkg, Name: name, Mode: "int", Loops: map[int]*LoopContract{}, Flags: map[string]bool{},
@@ -229,6 +242,29 @@ func (cs *Contracts) LoadContractFile(path, pkg string) error {
 			}
 			curLemma = &Lemma{Pkg: pkg, Name: name, Mode: mode, E: e, Trusted: word == "axiom", Src: rest[i+1:], File: path, Line: lineNo}
 			cs.Lemmas = append(cs.Lemmas, curLemma)
+			return nil
+		case "globalinv":
+			// globalinv <name> <initfunc> [props=..]: expr
+			i := strings.Index(rest, ":")
+			if i < 0 {
+				return fail("globalinv needs 'name initfunc: expr'")
+			}
+			hd := strings.Fields(rest[:i])
+			if len(hd) < 2 {
+				return fail("globalinv needs a name and an init function")
+			}
+			e, err := ParseExpr(strings.TrimSpace(rest[i+1:]))
+			if err != nil {
+				return fail("%v", err)
+			}
+			gi := &GlobalInv{Pkg: pkg, Name: hd[0], Init: hd[1], E: e, Src: rest[i+1:]}
+			for _, h := range hd[2:] {
+				if strings.HasPrefix(h, "props=") {
+					gi.Props = strings.Split(h[6:], ",")
+				}
+			}
+			cs.GlobalInvs = append(cs.GlobalInvs, gi)
+			cur, curLemma = nil, nil
 			return nil
 		case "ghost":
 			w2, r2 := splitWord(rest)
@@ -300,6 +336,13 @@ func (cs *Contracts) LoadContractFile(path, pkg string) error {
 				return err
 			}
 			cur.Ensures = append(cur.Ensures, c)
+		case "callpre":
+			w2, r2 := splitWord(rest)
+			c, err := mkClause(r2)
+			if err != nil {
+				return err
+			}
+			cur.CallPres = append(cur.CallPres, CallPre{Callee: w2, C: c})
 		case "ghostdef":
 			c, err := mkClause(rest)
 			if err != nil {
